@@ -684,19 +684,23 @@ def order_dependent(chk, build, sc, evs, rej, shards, ids, max_replays=6):
             pos = evs[i]["pos"]
             if not (pos in r2 and fclass(r2[pos]) == fclass(rej[i])):
                 raise Broken("rejection of %s is reproducible neither alone nor in its original order" % json.dumps(evs[i])[:400])
-        first = min(lst, key=lambda i: evs[i]["pos"])
+        onset = {}          # session: class name -> key of the first rejected query of that class alone (later ones: same drift)
         for i in sorted(lst, key=lambda i: evs[i]["pos"]):
             e, cls = evs[i], fclass(rej[i])
             before = None
             if e["sre"][0] == "cls" and label.startswith("session_"):
+                if e["sre"][1] in onset:
+                    found[onset[e["sre"][1]]]["ids"].append(i)
+                    continue
                 j = e["pos"] - 1
                 while j >= 0 and again[j]["sre"] == e["sre"]:
                     j -= 1
                 before = again[j] if j >= 0 else None
                 comb = combination_of(before["sre"], e["sre"][1]) if before else None
                 key = "%s:named-class:after-combination(%s)" % (cls, comb or "other")
+                onset[e["sre"][1]] = key
             else:
-                key = "%s:order-dependent:%s" % (cls, "+".join("named(%s)" % n for n in sorted(names_in(e["sre"]))) or signature(e["sre"]))
+                key = "%s:order-dependent:%s" % (cls, "named" if names_in(e["sre"]) else signature(e["sre"]))
             f = found.setdefault(key, {"ids": [], "classes": set(), "example": None})
             f["ids"].append(i)
             f["classes"] |= names_in(e["sre"])
@@ -986,14 +990,16 @@ def run():
             phase["minimise-rejections"] = round(time.time() - t0, 1)
         chk.cov["rule"] = ("a case = one (SRE, subject) pair: all SREs of depth<=1 over {a,b,c} x all subjects up to length 4 (5 thorough), anchor and case-folding "
                            "families likewise over {a,newline} / {a,A,b}, depth-2 SREs over {a,b} (seeded sample), (seq|or)(unary(seq(atom,atom)),atom) over {a,A} printed as (op a b), "
-                           "all enumerated by TLC (RegexGen), plus "
+                           "947 SREs over the named classes / char-set algebra / w/ascii, all enumerated by TLC (RegexGen), one ordered session per named class "
+                           "(class alone before and after each combination form, RegexMC level 5), plus "
                            "TLC-simulated SREs up to depth 5 (RegexSim) with subjects up to length 12 over {a,b,c,newline}, {a,A,b,B} and a Unicode alphabet; "
                            "distinct_nontrivial = distinct accepted pairs whose SRE has an operator and for which the implementation reported a search match "
                            "(so that span and submatch clauses were exercised)")
         chk.assumptions += ["case folding is specified for simple one-to-one case pairs only (ASCII, Latin-1, Greek, Cyrillic basic letters); subjects never contain characters of larger case classes",
                             "complement classes inside w/nocase, (** m n) with m > n, and very large classes inside w/nocase (minutes of compile time) are not generated",
                             "the abstract-SRE -> SRE-datum printer of checks/c20.py and the driver's span extraction are trusted (format conversion)",
-                            "no preference among ambiguous parses (leftmost-longest, which iteration a group reports) is demanded"]
+                            "no preference among ambiguous parses (leftmost-longest, which iteration a group reports) is demanded",
+                            "named classes are specified for all of ASCII and 15 non-ASCII representatives (Regex!KnownChars); subjects of SREs with named classes stay inside"]
     return chk.finish()
 
 
